@@ -89,6 +89,8 @@ package taint
 //  - a node that is filtered out is not expanded either, and is not reported;
 //  - a node that matches a sink while tracing is reported (addNewPathCandidate) and
 //    not expanded;
+//  - C01: a call node, bound variable, closure or synthetic node that is expanded has
+//    its outgoing edges followed (Out() is consulted);
 //  - C05: unless summaries may be ignored, a write to a global makes the traversal
 //    look for the functions reading it (ReachableFunctions scan that builds their
 //    summaries) whatever the summarisation mode -- a global-access node that is not
@@ -100,4 +102,9 @@ package taint
 //@   loop 1 body sanitizer_stops: called(isSanitizer, _, _, _) && retof(isSanitizer, _, _, _) ==> !called(addNext, _, _, _, _, _, _, _, _)
 //@   loop 1 body sink_reported: called(isSink, _, _, _) && retof(isSink, _, _, _) && cur.Status.Kind == dataflow.DefaultTracing ==> called(addNewPathCandidate, _, _, _) && !called(addNext, _, _, _, _, _, _, _, _)
 //@   loop 1 body global_readers_summarised: istype(cur.Node, *dataflow.AccessGlobalNode) && called(isSanitizer, _, _, _) && !retof(isSanitizer, _, _, _) && !ignoreNonSummarized ==> called(ReachableFunctions, _) || called(AccessGlobalNode.Out, _)
+//@   macro expanded() = (called(isSanitizer, _, _, _) && !retof(isSanitizer, _, _, _) && !ignoreNonSummarized)
+//@   loop 1 body call_node_out_edges: istype(cur.Node, *dataflow.CallNode) && expanded() ==> called(CallNode.Out, _)
+//@   loop 1 body bound_var_out_edges: istype(cur.Node, *dataflow.BoundVarNode) && expanded() ==> called(BoundVarNode.Out, _)
+//@   loop 1 body closure_out_edges: istype(cur.Node, *dataflow.ClosureNode) && expanded() ==> called(ClosureNode.Out, _)
+//@   loop 1 body synthetic_out_edges: istype(cur.Node, *dataflow.SyntheticNode) && expanded() ==> called(SyntheticNode.Out, _)
 //@   loop 1 body filtered_not_reported: called(isFiltered, _, _, _) && retof(isFiltered, _, _, _) ==> !called(addNext, _, _, _, _, _, _, _, _) && !called(addNewPathCandidate, _, _, _)
